@@ -65,6 +65,10 @@ func perfFields(p *events.Performance) string {
 func setPerf(p *events.Performance, s string) {
 	v := ints64(strings.Split(s, ","))
 	p.Timestamp = time.Unix(v[0]/1000, v[0]%1000*1000000)
+	if v[0] > 0 && v[0]%2 == 1 {
+		// a time stamp in the upper half of its millisecond: what is persisted is the millisecond it lies in (truncation)
+		p.Timestamp = p.Timestamp.Add(700 * time.Microsecond)
+	}
 	p.ID = v[1]
 	p.Counters = events.PerformanceCounters{Number: v[2], Operations: v[3], Size: v[4], Errors: v[5]}
 	p.Timers = events.PerformanceTimers{Duration: time.Duration(v[6]), Total: time.Duration(v[7])}
@@ -330,7 +334,7 @@ var evVals = []int64{0, 1, -1, 2, 7, 1000, math.MaxInt64, math.MinInt64, math.Ma
 func randPerf(rng *rand.Rand, i int) string {
 	v := make([]int64, 11)
 	// time stamps in any order (events may be recorded out of order), sometimes equal
-	v[0] = 1600000000000 + int64(rng.Intn(20))*1000 + int64(rng.Intn(3))*500
+	v[0] = 1600000000000 + int64(rng.Intn(20))*1000 + int64(rng.Intn(3))*500 + int64(rng.Intn(2)) // odd: upper half of the millisecond (setPerf)
 	if rng.Intn(3) != 0 {
 		v[1] = int64(rng.Intn(4)) // id: zero and non-zero
 	} else {
